@@ -1084,8 +1084,9 @@ theorem initThresh_order {F : Fn α} (hL : CalLogLaws F) (hR : CalRound0Laws F) 
 namespace CalExample
 
 def Fq : Fn ℚ :=
-  { exp := fun x => 1 + x, log := fun x => (x - 1) / 10, log10 := id, pow := fun x _ => x,
-    round0 := id, round2 := id, round3 := id, round4 := id, pyRound2 := id }
+  { exp := fun x => 1 + x, log := fun x => (x - 1) / 10, log10 := id,
+    pow := fun x y => if y = 2 then x * x else x, round0 := id, round2 := id, round3 := id,
+    round4 := id, pyRound2 := id }
 
 /-- a fruit/grain crop, method 3, `Tbase = 0 ≤ Tupp = 30` -/
 def cq : CalGDDIn ℚ :=
